@@ -291,6 +291,15 @@ Proof.
     intros H; try discriminate; injection H as <-; cbn; assumption.
 Qed.
 
+Lemma mkHeader_ext a1 a2 a3 a4 a5 a6 a7 a8 a9 a10 a11 a12 a13 a14 a15 a16 a17 a18 a19 a20
+                   b1 b2 b3 b4 b5 b6 b7 b8 b9 b10 b11 b12 b13 b14 b15 b16 b17 b18 b19 b20 :
+  a1 = b1 -> a2 = b2 -> a3 = b3 -> a4 = b4 -> a5 = b5 -> a6 = b6 -> a7 = b7 -> a8 = b8 ->
+  a9 = b9 -> a10 = b10 -> a11 = b11 -> a12 = b12 -> a13 = b13 -> a14 = b14 -> a15 = b15 ->
+  a16 = b16 -> a17 = b17 -> a18 = b18 -> a19 = b19 -> a20 = b20 ->
+  mkHeader a1 a2 a3 a4 a5 a6 a7 a8 a9 a10 a11 a12 a13 a14 a15 a16 a17 a18 a19 a20 =
+  mkHeader b1 b2 b3 b4 b5 b6 b7 b8 b9 b10 b11 b12 b13 b14 b15 b16 b17 b18 b19 b20.
+Proof. intros; subst; reflexivity. Qed.
+
 Lemma hdr_of_encode h t n r :
   wf_header h -> hdr_of (encode_header h t n ++ r) = h.
 Proof.
@@ -303,10 +312,11 @@ Proof.
   unfold flags0, flags1.
   cbn [h_alternate_master h_two_step h_unicast h_profile1 h_profile2 h_leap61 h_leap59 h_utc_valid
        h_ptp_timescale h_time_traceable h_freq_traceable h_sync_uncertain].
-  f_equal.
+  apply mkHeader_ext.
   - lia.
   - lia.
   - lia.
+  - reflexivity.
   - destruct f1, f2, f3, f4, f5; reflexivity.
   - destruct f1, f2, f3, f4, f5; reflexivity.
   - destruct f1, f2, f3, f4, f5; reflexivity.
@@ -324,4 +334,772 @@ Proof.
   - apply dec_enc_pi0; assumption.
   - apply dec_enc_u. rewrite P2; lia.
   - change 256 with (2 ^ 8). apply to_signed_mod; [lia|]. change (2 ^ (8 - 1)) with 128. lia.
+Qed.
+
+Lemma to_signed16 v : -32768 <= v < 32768 -> to_signed 16 (be_decode (be_encode 2 v)) = v.
+Proof.
+  intros H. rewrite be_decode_encode. change (256 ^ Z.of_nat 2) with (2 ^ 16).
+  apply to_signed_mod; [lia|]. change (2 ^ (16 - 1)) with 32768. lia.
+Qed.
+
+Lemma canon_mgmt_action_id a : 0 <= a <= 5 -> canon_mgmt_action a = a.
+Proof. intros H. unfold canon_mgmt_action. destruct (Z.leb_spec a 4); lia. Qed.
+
+Lemma slice_exact (p x : bytes) n : n = length x -> slice (length p) n (p ++ x) = x.
+Proof. intros ->. unfold slice. rewrite skipn_app_exact. apply firstn_all. Qed.
+
+Lemma body_of_encode bd s :
+  wf_body bd -> body_of (body_type bd) (encode_body bd ++ s) = bd.
+Proof.
+  intros H. destruct bd as [t|t|t|t p|t|t p|t p|a|p|p sh bh ac]; cbn [wf_body] in H;
+    cbn [body_type body_of encode_body].
+  - rewrite dec_enc_ts; auto.
+  - rewrite dec_enc_ts; auto.
+  - rewrite <- app_assoc, dec_enc_ts; auto.
+  - destruct H as [Ht Hp].
+    replace (slice 10 10 ((enc_ts t ++ enc_pi p) ++ s)) with (enc_pi p) by reflexivity.
+    rewrite <- app_assoc, dec_enc_ts, dec_enc_pi0; auto.
+  - rewrite dec_enc_ts; auto.
+  - destruct H as [Ht Hp].
+    replace (slice 10 10 ((enc_ts t ++ enc_pi p) ++ s)) with (enc_pi p) by reflexivity.
+    rewrite <- app_assoc, dec_enc_ts, dec_enc_pi0; auto.
+  - destruct H as [Ht Hp].
+    replace (slice 10 10 ((enc_ts t ++ enc_pi p) ++ s)) with (enc_pi p) by reflexivity.
+    rewrite <- app_assoc, dec_enc_ts, dec_enc_pi0; auto.
+  - destruct H as (Ho & Hu & Hp1 & (Hc & Ha & Hca & Hv) & Hp2 & Hg & Hs & Hts).
+    destruct a as [o u p1 [cl acc var] p2 g sr tsrc].
+    cbn [an_origin an_utc_offset an_prio1 an_quality an_prio2 an_gm_identity an_steps_removed
+         an_time_source cq_class cq_accuracy cq_variance] in *.
+    set (E := (enc_ts o ++ be_encode 2 u ++ [0; p1] ++ enc_cq (mkCQ cl acc var) ++ [p2]
+               ++ be_encode 8 g ++ be_encode 2 sr ++ [tsrc]) ++ s).
+    replace (slice 10 2 E) with (be_encode 2 u) by reflexivity.
+    replace (byte_at 13 E) with p1 by reflexivity.
+    replace (slice 14 4 E) with (enc_cq (mkCQ cl acc var)) by reflexivity.
+    replace (byte_at 18 E) with p2 by reflexivity.
+    replace (slice 19 8 E) with (be_encode 8 g) by reflexivity.
+    replace (slice 27 2 E) with (be_encode 2 sr) by reflexivity.
+    replace (byte_at 29 E) with tsrc by reflexivity.
+    subst E. rewrite <- app_assoc, dec_enc_ts by assumption.
+    rewrite to_signed16 by assumption.
+    rewrite !dec_enc_u by (rewrite ?P8, ?P2; lia).
+    unfold dec_cq, enc_cq. cbn [cq_class cq_accuracy cq_variance].
+    replace (byte_at 0 ([cl; acc] ++ be_encode 2 var)) with cl by reflexivity.
+    replace (byte_at 1 ([cl; acc] ++ be_encode 2 var)) with acc by reflexivity.
+    replace (slice 2 2 ([cl; acc] ++ be_encode 2 var)) with (be_encode 2 var) by reflexivity.
+    rewrite Hca, dec_enc_u by (rewrite ?P2; lia). reflexivity.
+  - rewrite dec_enc_pi; auto.
+  - destruct H as (Hp & Hs & Hh & Ha).
+    set (E := (enc_pi p ++ [0; sh; bh; ac]) ++ s).
+    replace (byte_at 11 E) with sh by reflexivity.
+    replace (byte_at 12 E) with bh by reflexivity.
+    replace (byte_at 13 E) with ac by reflexivity.
+    subst E. rewrite <- app_assoc, dec_enc_pi, canon_mgmt_action_id by assumption. reflexivity.
+Qed.
+
+(** [encode_decode]: every well-formed message survives encode, decode. *)
+Theorem encode_decode m : wf_msg m -> decode (encode_raw m) = ROk m.
+Proof.
+  intros (Hh & Hb & (Hsok & Hs) & Hsz).
+  rewrite decode_eq.
+  pose proof (encode_raw_length m) as HL.
+  assert (Hbs : 0 <= body_size (m_body m)) by (destruct (m_body m); cbn; lia).
+  assert (Hws : 34 <= wire_size m) by (unfold wire_size, blen; lia).
+  rewrite HL.
+  destruct (Z.ltb_spec (wire_size m) 34); [lia|].
+  unfold encode_raw at 1. rewrite E_b0.
+  pose proof (msg_type_code_range (body_type (m_body m))) as Hc.
+  replace ((h_sdo_id (m_header m) / 256 * 16 mod 256 + msg_type_code (body_type (m_body m))) mod 16)
+    with (msg_type_code (body_type (m_body m))) by lia.
+  rewrite msg_type_of_code.
+  assert (Hm : mlen (encode_raw m) = wire_size m).
+  { unfold mlen, encode_raw. rewrite E_len, be_decode_encode, P2.
+    unfold wire_size in *. rewrite Z.mod_small; lia. }
+  rewrite Hm.
+  destruct (Z.ltb_spec (wire_size m) 34); [lia|].
+  destruct (Z.ltb_spec (wire_size m) (wire_size m)); [lia|].
+  assert (Hcont : content_of (encode_raw m) = encode_body (m_body m) ++ m_suffix m).
+  { unfold content_of. rewrite Hm. unfold encode_raw.
+    apply (slice_exact (encode_header _ _ _)).
+    rewrite app_length. pose proof (encode_body_length (m_body m)).
+    unfold wire_size, blen in *. lia. }
+  rewrite Hcont.
+  assert (Hbl : blen (encode_body (m_body m) ++ m_suffix m) = body_size (m_body m) + blen (m_suffix m)).
+  { unfold blen. rewrite app_length, Nat2Z.inj_add, encode_body_length. reflexivity. }
+  rewrite Hbl, <- body_size_type.
+  destruct (Z.ltb_spec (body_size (m_body m) + blen (m_suffix m)) (body_size (m_body m)));
+    [unfold blen in *; lia|].
+  rewrite <- encode_body_length, Nat2Z.id, skipn_app_exact, Hs.
+  unfold encode_raw. rewrite hdr_of_encode, body_of_encode by assumption.
+  destruct m; reflexivity.
+Qed.
+
+(** * 4. A decoded message is well-formed and as long as declared *)
+
+Lemma be_decode_bound_le bs n :
+  bok bs -> (length bs <= n)%nat -> 0 <= be_decode bs < 256 ^ Z.of_nat n.
+Proof.
+  intros Hb Hl. pose proof (be_decode_bound bs Hb).
+  assert (256 ^ Z.of_nat (length bs) <= 256 ^ Z.of_nat n) by (apply Z.pow_le_mono_r; lia).
+  lia.
+Qed.
+
+Lemma slice_bound off n b : bok b -> 0 <= be_decode (slice off n b) < 256 ^ Z.of_nat n.
+Proof. intros H. apply be_decode_bound_le; [apply bok_slice; assumption | apply slice_length_le]. Qed.
+
+Lemma dec_pi_wf c : bok c -> wf_pi (dec_pi c).
+Proof.
+  intros H. unfold wf_pi, dec_pi; cbn [pi_clock pi_port].
+  pose proof (slice_bound 0 8 c H). pose proof (slice_bound 8 2 c H).
+  rewrite P8, P2 in *. lia.
+Qed.
+Lemma dec_ts_wf c : bok c -> wf_ts (dec_ts c).
+Proof.
+  intros H. unfold wf_ts, dec_ts; cbn [ts_secs ts_nanos].
+  pose proof (slice_bound 0 6 c H). pose proof (slice_bound 6 4 c H).
+  rewrite P6, P4 in *. lia.
+Qed.
+
+Lemma canon_accuracy_range v : 0 <= v < 256 -> 0 <= canon_accuracy v < 256.
+Proof. intros H. unfold canon_accuracy. destruct (_ || _); lia. Qed.
+Lemma canon_accuracy_idem v : canon_accuracy (canon_accuracy v) = canon_accuracy v.
+Proof.
+  unfold canon_accuracy.
+  destruct (((23 <=? v) && (v <=? 49)) || ((128 <=? v) && (v <=? 254))) eqn:E.
+  - rewrite E. reflexivity.
+  - reflexivity.
+Qed.
+Lemma canon_mgmt_action_range v : 0 <= v -> 0 <= canon_mgmt_action v <= 5.
+Proof. intros H. unfold canon_mgmt_action. destruct (Z.leb_spec v 4); lia. Qed.
+
+Lemma hdr_of_wf b : bok b -> wf_header (hdr_of b).
+Proof.
+  intros H. unfold wf_header, hdr_of.
+  cbn [h_sdo_id h_version_major h_version_minor h_domain h_correction h_source h_seq h_log_interval].
+  pose proof (bok_byte_at 0 b H). pose proof (bok_byte_at 1 b H).
+  pose proof (bok_byte_at 4 b H). pose proof (bok_byte_at 5 b H).
+  pose proof (bok_byte_at 33 b H).
+  pose proof (slice_bound 8 8 b H) as Hc. pose proof (slice_bound 30 2 b H) as Hs.
+  rewrite P2 in Hs. change (256 ^ Z.of_nat 8) with (2 ^ 64) in Hc.
+  pose proof (to_signed_range 64 _ ltac:(lia) Hc) as Hc'.
+  change (2 ^ (64 - 1)) with 9223372036854775808 in Hc'.
+  pose proof (to_signed_range 8 (byte_at 33 b) ltac:(lia) ltac:(change (2 ^ 8) with 256; lia)) as Hl.
+  change (2 ^ (8 - 1)) with 128 in Hl.
+  pose proof (dec_pi_wf _ (bok_slice 20 10 b H)) as Hpi. unfold wf_pi in *.
+  repeat split; lia.
+Qed.
+
+Lemma body_of_wf t c : bok c -> wf_body (body_of t c).
+Proof.
+  intros H.
+  pose proof (dec_ts_wf c H) as Hts.
+  pose proof (dec_pi_wf c H) as Hpi0.
+  pose proof (dec_pi_wf _ (bok_slice 10 10 c H)) as Hpi.
+  destruct t; cbn [body_of wf_body]; auto.
+  - (* Announce *)
+    unfold wf_ann. cbn [an_origin an_utc_offset an_prio1 an_quality an_prio2 an_gm_identity
+                        an_steps_removed an_time_source].
+    pose proof (slice_bound 10 2 c H) as Hu. change (256 ^ Z.of_nat 2) with (2 ^ 16) in Hu.
+    pose proof (to_signed_range 16 _ ltac:(lia) Hu) as Hu'. change (2 ^ (16 - 1)) with 32768 in Hu'.
+    pose proof (bok_byte_at 13 c H). pose proof (bok_byte_at 18 c H). pose proof (bok_byte_at 29 c H).
+    pose proof (slice_bound 19 8 c H) as Hg. rewrite P8 in Hg.
+    pose proof (slice_bound 27 2 c H) as Hs. rewrite P2 in Hs.
+    assert (Hq : bok (slice 14 4 c)) by (apply bok_slice, H).
+    pose proof (bok_byte_at 0 _ Hq). pose proof (bok_byte_at 1 _ Hq).
+    pose proof (slice_bound 2 2 _ Hq) as Hv. rewrite P2 in Hv.
+    pose proof (canon_accuracy_range (byte_at 1 (slice 14 4 c)) ltac:(lia)).
+    pose proof (canon_accuracy_idem (byte_at 1 (slice 14 4 c))).
+    unfold canon_time_source, wf_cq, dec_cq; cbn [cq_class cq_accuracy cq_variance].
+    split; [exact Hts|]. repeat split; try lia; assumption.
+  - (* Management *)
+    pose proof (bok_byte_at 11 c H). pose proof (bok_byte_at 12 c H). pose proof (bok_byte_at 13 c H).
+    pose proof (canon_mgmt_action_range (byte_at 13 c) ltac:(lia)).
+    split; [exact Hpi0|]. repeat split; lia.
+Qed.
+
+Lemma mlen_bound b : bok b -> 0 <= mlen b < 65536.
+Proof. intros H. unfold mlen. pose proof (slice_bound 2 2 b H) as B. rewrite P2 in B. exact B. Qed.
+
+Theorem decode_wf b m : bok b -> decode b = ROk m -> wf_msg m /\ wire_size m = mlen b.
+Proof.
+  intros Hb Hd. destruct (decode_inv _ _ Hd) as (t & Ht & H34 & HL & Hbs & Hts & Hs & Hm).
+  pose proof (content_length b HL) as Hcl.
+  assert (Hc : bok (content_of b)) by (apply bok_slice, Hb).
+  assert (Hsz : wire_size m = mlen b).
+  { rewrite Hm. unfold wire_size; cbn [m_body m_suffix]. rewrite body_of_size, Hs.
+    unfold blen in *. rewrite skipn_length.
+    assert (0 <= type_body_size t) by (destruct t; cbn; lia). lia. }
+  split; [|exact Hsz].
+  unfold wf_msg. rewrite Hsz. pose proof (mlen_bound b Hb).
+  rewrite Hm; cbn [m_header m_body m_suffix].
+  split; [apply hdr_of_wf, Hb|]. split; [apply body_of_wf, Hc|]. split; [|lia].
+  split.
+  - rewrite Hs. apply bok_skipn, Hc.
+  - rewrite Hs at 1. rewrite Hts. reflexivity.
+Qed.
+
+(** * 5. decode_spec: every field of a decoded message is the value the
+       independent Clause-13 reader finds at the prescribed position *)
+
+Definition body_ts (bd : body) : wire_ts :=
+  match bd with
+  | BSync t | BDelayReq t | BPDelayReq t | BFollowUp t => t
+  | BPDelayResp t _ | BDelayResp t _ | BPDelayRespFollowUp t _ => t
+  | BAnnounce a => an_origin a
+  | _ => ts_zero
+  end.
+Definition body_pi (bd : body) : port_identity :=
+  match bd with
+  | BPDelayResp _ p | BDelayResp _ p | BPDelayRespFollowUp _ p => p
+  | BSignaling p => p
+  | BManagement p _ _ _ => p
+  | _ => pi_default
+  end.
+Definition body_ann (bd : body) : announce_body :=
+  match bd with
+  | BAnnounce a => a
+  | _ => mkAnn ts_zero 0 0 (mkCQ 0 0 0) 0 0 0 0
+  end.
+
+(** The value a message carries in each field of the layout table.  Reserved
+    fields carry 0, controlField is determined by the type, messageLength is
+    the size of the encoding. *)
+Definition field_of (m : message) (f : field) : Z :=
+  let h := m_header m in
+  let bd := m_body m in
+  match f with
+  | FmajorSdoId => h_sdo_id h / 256
+  | FmessageType => msg_type_code (body_type bd)
+  | FminorVersionPTP => h_version_minor h
+  | FversionPTP => h_version_major h
+  | FmessageLength => wire_size m
+  | FdomainNumber => h_domain h
+  | FminorSdoId => h_sdo_id h mod 256
+  | FflagField => flags0 h * 256 + flags1 h
+  | FalternateMaster => b2z (h_alternate_master h)
+  | FtwoStep => b2z (h_two_step h)
+  | Funicast => b2z (h_unicast h)
+  | FprofileSpecific1 => b2z (h_profile1 h)
+  | FprofileSpecific2 => b2z (h_profile2 h)
+  | Fleap61 => b2z (h_leap61 h)
+  | Fleap59 => b2z (h_leap59 h)
+  | FcurrentUtcOffsetValid => b2z (h_utc_valid h)
+  | FptpTimescale => b2z (h_ptp_timescale h)
+  | FtimeTraceable => b2z (h_time_traceable h)
+  | FfrequencyTraceable => b2z (h_freq_traceable h)
+  | FsynchronizationUncertain => b2z (h_sync_uncertain h)
+  | FcorrectionField => h_correction h
+  | FmessageTypeSpecific => 0
+  | FsourceClockIdentity => pi_clock (h_source h)
+  | FsourcePortNumber => pi_port (h_source h)
+  | FsequenceId => h_seq h
+  | FcontrolField => control_field (body_type bd)
+  | FlogMessageInterval => h_log_interval h
+  | FtsSeconds => ts_secs (body_ts bd)
+  | FtsNanoseconds => ts_nanos (body_ts bd)
+  | FpiClockIdentity => pi_clock (body_pi bd)
+  | FpiPortNumber => pi_port (body_pi bd)
+  | FpdelayReqReserved => 0
+  | FcurrentUtcOffset => an_utc_offset (body_ann bd)
+  | FannounceReserved => 0
+  | FgrandmasterPriority1 => an_prio1 (body_ann bd)
+  | FgmClockClass => cq_class (an_quality (body_ann bd))
+  | FgmClockAccuracy => cq_accuracy (an_quality (body_ann bd))
+  | FgmOffsetScaledLogVariance => cq_variance (an_quality (body_ann bd))
+  | FgrandmasterPriority2 => an_prio2 (body_ann bd)
+  | FgrandmasterIdentity => an_gm_identity (body_ann bd)
+  | FstepsRemoved => an_steps_removed (body_ann bd)
+  | FtimeSource => an_time_source (body_ann bd)
+  | FmgmtOctet44 => 0
+  | FstartingBoundaryHops => match bd with BManagement _ s _ _ => s | _ => 0 end
+  | FboundaryHops => match bd with BManagement _ _ h _ => h | _ => 0 end
+  | FactionField => match bd with BManagement _ _ _ a => a | _ => 0 end
+  end.
+
+(** readers on explicit layout records (the form [vm_compute] produces) *)
+Lemma read_U off n bits b :
+  bits = 8 * Z.of_nat n -> bok b -> (off + n <= length b)%nat ->
+  read (mkL off n 0 bits false) b = be_decode (slice off n b).
+Proof. intros ->. apply read_LU. Qed.
+Lemma read_S off n bits b :
+  bits = 8 * Z.of_nat n -> (0 < n)%nat -> bok b -> (off + n <= length b)%nat ->
+  read (mkL off n 0 bits true) b = to_signed bits (be_decode (slice off n b)).
+Proof. intros -> Hn Hb H. apply read_LS; assumption. Qed.
+Lemma read_B off s k b : read (mkL off 1 s k false) b = (byte_at off b / 2 ^ s) mod 2 ^ k.
+Proof. apply read_LB. Qed.
+
+Lemma slice_two off b : (off + 2 <= length b)%nat -> slice off 2 b = [byte_at off b; byte_at (S off) b].
+Proof. intros H. rewrite slice_cons_nth by lia. rewrite slice_one by lia. reflexivity. Qed.
+Lemma be_decode_two x y : be_decode [x; y] = x * 256 + y.
+Proof. unfold be_decode; cbn [be_decode_acc]; lia. Qed.
+
+(** enumeration of the 256 octet values *)
+Definition zrange (n : nat) : list Z := map Z.of_nat (seq 0 n).
+Lemma zrange_all n p : forallb p (zrange n) = true -> forall x, 0 <= x < Z.of_nat n -> p x = true.
+Proof.
+  intros H x Hx. rewrite forallb_forall in H. apply H. unfold zrange.
+  apply in_map_iff. exists (Z.to_nat x). split; [lia|]. apply in_seq. lia.
+Qed.
+
+Lemma flag_word x y :
+  0 <= x < 256 -> 0 <= y < 256 ->
+  (b2z (bit x 0) + 2 * b2z (bit x 1) + 4 * b2z (bit x 2) + 32 * b2z (bit x 5) + 64 * b2z (bit x 6)) * 256
+  + (b2z (bit y 0) + 2 * b2z (bit y 1) + 4 * b2z (bit y 2) + 8 * b2z (bit y 3) + 16 * b2z (bit y 4)
+     + 32 * b2z (bit y 5) + 64 * b2z (bit y 6))
+  = Z.land (x * 256 + y) flag_mask.
+Proof.
+  intros Hx Hy.
+  pose (p := fun x => forallb (fun y =>
+    (b2z (bit x 0) + 2 * b2z (bit x 1) + 4 * b2z (bit x 2) + 32 * b2z (bit x 5) + 64 * b2z (bit x 6)) * 256
+    + (b2z (bit y 0) + 2 * b2z (bit y 1) + 4 * b2z (bit y 2) + 8 * b2z (bit y 3) + 16 * b2z (bit y 4)
+       + 32 * b2z (bit y 5) + 64 * b2z (bit y 6))
+    =? Z.land (x * 256 + y) flag_mask) (zrange 256)).
+  assert (H : forallb p (zrange 256) = true) by (vm_compute; reflexivity).
+  pose proof (zrange_all 256 p H x Hx) as Hp. unfold p in Hp.
+  pose proof (zrange_all 256 _ Hp y Hy) as Hq. cbv beta in Hq. lia.
+Qed.
+
+Lemma bit_spec v k : 0 <= k -> b2z (bit v k) = (v / 2 ^ k) mod 2 ^ 1.
+Proof. intros Hk. exact (Z.testbit_spec' v k Hk). Qed.
+
+Lemma control_spec t : control_field t = spec_control (msg_type_code t).
+Proof. destruct t; reflexivity. Qed.
+
+Ltac pick_layout :=
+  unfold spec_get;
+  match goal with
+  | |- context [layout_of ?mt ?f] =>
+      let l := fresh "l" in
+      set (l := layout_of mt f); vm_compute in l; subst l; cbv beta iota
+  end.
+
+Ltac rd :=
+  first
+    [ rewrite read_U; [ | reflexivity | assumption | cbn [length]; lia ]
+    | rewrite read_S; [ | reflexivity | lia | assumption | cbn [length]; lia ]
+    | rewrite read_B ].
+
+Section DecodeSpecHeader.
+  Variables (b : bytes) (t : msg_type) (bd : body) (s : bytes).
+  Hypothesis Hb : bok b.
+  Hypothesis H34 : (34 <= length b)%nat.
+  Hypothesis Ht : msg_type_of_nibble (byte_at 0 b mod 16) = Some t.
+  Hypothesis Hbt : body_type bd = t.
+  Let m := mkMsg (hdr_of b) bd s.
+  Hypothesis Hsz : wire_size m = mlen b.
+
+  Lemma spec_type_code : spec_msg_type b = msg_type_code t.
+  Proof. unfold spec_msg_type, oct. apply msg_type_code_of. exact Ht. Qed.
+
+  Lemma decode_spec_header f :
+    In f header_fields ->
+    field_of m f = spec_canon (spec_msg_type b) f (spec_get f b).
+  Proof.
+    intros Hin. rewrite spec_type_code.
+    pose proof (bok_byte_at 0 b Hb) as B0. pose proof (bok_byte_at 1 b Hb) as B1.
+    pose proof (bok_byte_at 5 b Hb) as B5. pose proof (bok_byte_at 6 b Hb) as B6.
+    pose proof (bok_byte_at 7 b Hb) as B7.
+    pose proof (msg_type_code_of _ _ Ht) as Hc.
+    pose proof (msg_type_code_range t) as Hr.
+    unfold header_fields in Hin. cbn [In] in Hin.
+    repeat (destruct Hin as [<-|Hin]); [..|contradiction];
+      cbn [field_of spec_canon m m_header m_body m_suffix hdr_of
+           h_sdo_id h_version_major h_version_minor h_domain h_alternate_master h_two_step
+           h_unicast h_profile1 h_profile2 h_leap61 h_leap59 h_utc_valid h_ptp_timescale
+           h_time_traceable h_freq_traceable h_sync_uncertain h_correction h_source h_seq
+           h_log_interval];
+      try (pick_layout; rd).
+    - (* majorSdoId *) change (2 ^ 4) with 16. lia.
+    - (* messageType *) rewrite Hbt. change (2 ^ 0) with 1. change (2 ^ 4) with 16. lia.
+    - change (2 ^ 4) with 16. lia.
+    - change (2 ^ 0) with 1. change (2 ^ 4) with 16. lia.
+    - exact Hsz.
+    - rewrite slice_one by lia. rewrite be_decode_one. reflexivity.
+    - rewrite slice_one by lia. rewrite be_decode_one. lia.
+    - rewrite slice_two by lia. rewrite be_decode_two. unfold flags0, flags1.
+      cbn [h_alternate_master h_two_step h_unicast h_profile1 h_profile2 h_leap61 h_leap59
+           h_utc_valid h_ptp_timescale h_time_traceable h_freq_traceable h_sync_uncertain].
+      apply flag_word; assumption.
+    - apply bit_spec; lia.
+    - apply bit_spec; lia.
+    - apply bit_spec; lia.
+    - apply bit_spec; lia.
+    - apply bit_spec; lia.
+    - apply bit_spec; lia.
+    - apply bit_spec; lia.
+    - apply bit_spec; lia.
+    - apply bit_spec; lia.
+    - apply bit_spec; lia.
+    - apply bit_spec; lia.
+    - apply bit_spec; lia.
+    - reflexivity.
+    - reflexivity.
+    - unfold dec_pi; cbn [pi_clock]. rewrite slice_slice by lia. reflexivity.
+    - unfold dec_pi; cbn [pi_port]. rewrite slice_slice by lia. reflexivity.
+    - reflexivity.
+    - rewrite Hbt. apply control_spec.
+    - rewrite slice_one by lia. rewrite be_decode_one. reflexivity.
+  Qed.
+End DecodeSpecHeader.
+
+Lemma canon_accuracy_spec v : canon_accuracy v = if accuracy_defined v then v else 0.
+Proof.
+  unfold canon_accuracy, accuracy_defined, in_range.
+  assert (E : ((23 <=? v) && (v <=? 49)) || ((128 <=? v) && (v <=? 254))
+              = ((23 <=? v) && (v <=? 49)) || ((128 <=? v) && (v <=? 253)) || (v =? 254)) by lia.
+  rewrite E. reflexivity.
+Qed.
+
+Definition body_fields (mt : Z) : list field :=
+  filter (fun f => match body_layout mt f with Some _ => true | None => false end) body_field_names.
+
+Lemma decode_spec_body b t s f :
+  bok b -> 34 <= mlen b <= blen b -> type_body_size t <= blen (content_of b) ->
+  In f (body_fields (msg_type_code t)) ->
+  field_of (mkMsg (hdr_of b) (body_of t (content_of b)) s) f
+  = spec_canon (msg_type_code t) f
+      (match layout_of (msg_type_code t) f with Some l => read l b | None => 0 end).
+Proof.
+  intros Hb HL Hbs Hin.
+  rewrite content_length in Hbs by assumption.
+  unfold content_of.
+  set (n := (Z.to_nat (mlen b) - 34)%nat).
+  assert (Hn : (34 + n <= length b)%nat) by (unfold n, blen in *; lia).
+  assert (Hn' : type_body_size t <= Z.of_nat n) by (unfold n; lia).
+  clearbody n. clear HL Hbs.
+  destruct t; cbn [type_body_size] in Hn'; vm_compute in Hin;
+    repeat (destruct Hin as [<-|Hin]); try contradiction;
+    cbn [field_of spec_canon m_header m_body m_suffix body_of body_ts body_pi body_ann msg_type_code
+         an_origin an_utc_offset an_prio1 an_quality an_prio2 an_gm_identity an_steps_removed
+         an_time_source];
+    try reflexivity;
+    (match goal with
+     | |- context [layout_of ?mt ?f] =>
+         let l := fresh "l" in
+         set (l := layout_of mt f); vm_compute in l; subst l; cbv beta iota
+     end);
+    rd;
+    unfold dec_ts, dec_pi, dec_cq, canon_time_source;
+    cbn [ts_secs ts_nanos pi_clock pi_port cq_class cq_accuracy cq_variance];
+    rewrite ?slice_slice by lia; rewrite ?byte_at_slice by lia;
+    rewrite ?slice_one by lia; rewrite ?be_decode_one;
+    try reflexivity.
+  - (* clockAccuracy *) apply canon_accuracy_spec.
+Qed.
+
+Theorem decode_spec b m :
+  bok b -> decode b = ROk m ->
+  forall f, In f (spec_fields (spec_msg_type b)) ->
+  field_of m f = spec_canon (spec_msg_type b) f (spec_get f b).
+Proof.
+  intros Hb Hd f Hin.
+  destruct (decode_inv _ _ Hd) as (t & Ht & H34 & HL & Hbs & Hts & Hs & Hm).
+  destruct (decode_wf _ _ Hb Hd) as [_ Hsz].
+  assert (H34n : (34 <= length b)%nat) by (unfold blen in *; lia).
+  rewrite Hm in *.
+  unfold spec_fields in Hin. apply in_app_or in Hin as [Hin|Hin].
+  - apply (decode_spec_header b t); auto using body_of_type.
+  - rewrite (spec_type_code b t Ht) in *. unfold spec_get. rewrite (spec_type_code b t Ht).
+    apply decode_spec_body; assumption.
+Qed.
+
+(** * 6. encode_spec: every field is written where Clause 13 puts it *)
+
+Lemma b2z_range x : 0 <= b2z x <= 1. Proof. destruct x; cbn; lia. Qed.
+
+Lemma bok_list (l : bytes) : (forall x, In x l -> 0 <= x < 256) -> bok l.
+Proof. intros H. apply Forall_forall. exact H. Qed.
+
+Lemma enc_pi_bok p : bok (enc_pi p).
+Proof. unfold enc_pi. apply bok_app; apply be_encode_bok. Qed.
+Lemma enc_ts_bok t : bok (enc_ts t).
+Proof. unfold enc_ts. apply bok_app; apply be_encode_bok. Qed.
+
+Lemma encode_header_bok h t n : wf_header h -> bok (encode_header h t n).
+Proof.
+  intros (Hsdo & Hmaj & Hmin & Hdom & Hcor & Hsrc & Hseq & Hlog).
+  pose proof (msg_type_code_range t).
+  assert (0 <= control_field t < 256) by (destruct t; cbn; lia).
+  pose proof (b2z_range (h_alternate_master h)). pose proof (b2z_range (h_two_step h)).
+  pose proof (b2z_range (h_unicast h)). pose proof (b2z_range (h_profile1 h)).
+  pose proof (b2z_range (h_profile2 h)). pose proof (b2z_range (h_leap61 h)).
+  pose proof (b2z_range (h_leap59 h)). pose proof (b2z_range (h_utc_valid h)).
+  pose proof (b2z_range (h_ptp_timescale h)). pose proof (b2z_range (h_time_traceable h)).
+  pose proof (b2z_range (h_freq_traceable h)). pose proof (b2z_range (h_sync_uncertain h)).
+  unfold encode_header.
+  repeat first [ apply bok_app | apply be_encode_bok | apply enc_pi_bok
+               | apply bok_cons | apply bok_nil ]; lia.
+Qed.
+
+Lemma encode_body_bok bd : wf_body bd -> bok (encode_body bd).
+Proof.
+  intros H. destruct bd as [t|t|t|t p|t|t p|t p|a|p|p sh bh ac]; cbn [wf_body encode_body] in *;
+    try (repeat first [ apply bok_app | apply enc_ts_bok | apply enc_pi_bok | apply be_encode_bok
+                      | apply bok_cons | apply bok_nil ]; lia).
+  - destruct H as (Ho & Hu & Hp1 & (Hc & Ha & Hca & Hv) & Hp2 & Hg & Hs & Hts).
+    unfold enc_cq.
+    repeat first [ apply bok_app | apply enc_ts_bok | apply enc_pi_bok | apply be_encode_bok
+                 | apply bok_cons | apply bok_nil ]; lia.
+Qed.
+
+Lemma encode_raw_bok m : wf_msg m -> bok (encode_raw m).
+Proof.
+  intros (Hh & Hb & (Hs & _) & _). unfold encode_raw.
+  apply bok_app; [apply encode_header_bok, Hh|]. apply bok_app; [apply encode_body_bok, Hb|exact Hs].
+Qed.
+
+Lemma not_in_fields f mt : ~ In f (spec_fields mt) -> In f (spec_fields mt) -> False.
+Proof. tauto. Qed.
+
+Theorem encode_spec m :
+  wf_msg m ->
+  forall f, In f (spec_fields (msg_type_code (body_type (m_body m)))) ->
+  spec_get f (encode_raw m) = field_of m f.
+Proof.
+  intros Hwf f Hin.
+  pose proof (encode_raw_bok m Hwf) as Hb.
+  pose proof (encode_decode m Hwf) as Hd.
+  destruct (decode_inv _ _ Hd) as (t & Ht & H34 & HL & Hbs & Hts & Hs & Hm).
+  pose proof (spec_type_code _ t Ht) as Hmt.
+  assert (Hbt : body_type (m_body m) = t) by (rewrite Hm; cbn [m_body]; apply body_of_type).
+  rewrite Hbt in Hin.
+  pose proof (decode_spec _ _ Hb Hd f) as Hds. rewrite Hmt in Hds. specialize (Hds Hin).
+  pose proof (encode_raw_length m) as Hlen.
+  assert (Hlen34 : (34 <= length (encode_raw m))%nat) by (unfold blen in *; lia).
+  destruct Hwf as (Hwh & Hwb & Hws & Hwsz).
+  destruct f; cbn [spec_canon] in Hds; try (symmetry; exact Hds); clear Hds;
+    unfold spec_get; rewrite Hmt; cbn [field_of].
+  - (* flagField *)
+    pick_layout. rd. unfold encode_raw.
+    replace (slice 6 2 _) with [flags0 (m_header m); flags1 (m_header m)] by reflexivity.
+    apply be_decode_two.
+  - (* controlField *)
+    pick_layout. rd. rewrite slice_one by lia. rewrite be_decode_one. unfold encode_raw.
+    rewrite E_b32. reflexivity.
+  - (* pdelayReqReserved *)
+    destruct t; try (exfalso; vm_compute in Hin; intuition discriminate).
+    destruct m as [h bd s]; cbn [m_body] in *. destruct bd; try discriminate.
+    unfold wire_size, blen in Hlen; cbn [m_body m_suffix body_size] in Hlen.
+    pick_layout. rd.
+    replace (slice 44 10 _) with [0; 0; 0; 0; 0; 0; 0; 0; 0; 0] by reflexivity. reflexivity.
+  - (* announce reserved *)
+    destruct t; try (exfalso; vm_compute in Hin; intuition discriminate).
+    destruct m as [h bd s]; cbn [m_body] in *. destruct bd; try discriminate.
+    unfold wire_size, blen in Hlen; cbn [m_body m_suffix body_size] in Hlen.
+    pick_layout. rd. rewrite slice_one by lia. rewrite be_decode_one. reflexivity.
+  - (* clockAccuracy *)
+    destruct t; try (exfalso; vm_compute in Hin; intuition discriminate).
+    destruct m as [h bd s]; cbn [m_body] in *. destruct bd; try discriminate.
+    unfold wire_size, blen in Hlen; cbn [m_body m_suffix body_size] in Hlen.
+    pick_layout. rd. rewrite slice_one by lia. rewrite be_decode_one. reflexivity.
+  - (* management octet 44 *)
+    destruct t; try (exfalso; vm_compute in Hin; intuition discriminate).
+    destruct m as [h bd s]; cbn [m_body] in *. destruct bd; try discriminate.
+    unfold wire_size, blen in Hlen; cbn [m_body m_suffix body_size] in Hlen.
+    pick_layout. rd. rewrite slice_one by lia. rewrite be_decode_one. reflexivity.
+  - (* actionField *)
+    destruct t; try (exfalso; vm_compute in Hin; intuition discriminate).
+    destruct m as [h bd s]; cbn [m_body] in *. destruct bd; try discriminate.
+    unfold wire_size, blen in Hlen; cbn [m_body m_suffix body_size] in Hlen.
+    pick_layout. rd. rewrite slice_one by lia. rewrite be_decode_one. reflexivity.
+Qed.
+
+(** [reencode]: what re-encoding a decoded message yields. *)
+Theorem reencode b m :
+  bok b -> decode b = ROk m ->
+  decode (encode_raw m) = ROk m /\
+  blen (encode_raw m) = mlen b /\
+  forall f, In f (spec_fields (spec_msg_type b)) ->
+    spec_get f (encode_raw m) = spec_canon (spec_msg_type b) f (spec_get f b).
+Proof.
+  intros Hb Hd. destruct (decode_wf _ _ Hb Hd) as [Hwf Hsz].
+  split; [apply encode_decode, Hwf|]. split; [rewrite encode_raw_length; exact Hsz|].
+  intros f Hin. rewrite <- (decode_spec _ _ Hb Hd f Hin).
+  apply encode_spec; [exact Hwf|].
+  destruct (decode_inv _ _ Hd) as (t & Ht & _ & _ & _ & _ & _ & Hm).
+  rewrite (spec_type_code b t Ht) in Hin. rewrite Hm; cbn [m_body]. rewrite body_of_type. exact Hin.
+Qed.
+
+(** * 7. The implementation's TLV scanner against the TLV framing of WireSpec *)
+
+Definition last_empty (l : list (Z * octets)) : bool :=
+  match rev l with (_, []) :: _ => true | _ => false end.
+Definition tlv_list (ts : list tlv) : list (Z * octets) :=
+  map (fun t => (tlv_type t, tlv_value t)) ts.
+
+Lemma spec_tlvs_nil fuel a : spec_tlvs_fuel fuel a = Some [] -> a = [].
+Proof.
+  destruct a as [|x a]; [reflexivity|]. destruct fuel; cbn [spec_tlvs_fuel]; [discriminate|].
+  destruct (_ <? 4)%nat; [discriminate|]. destruct (Z.odd _); [discriminate|].
+  destruct (_ <? _)%nat; [discriminate|]. destruct (spec_tlvs_fuel _ _); discriminate.
+Qed.
+
+Lemma last_empty_cons x l : l <> [] -> last_empty (x :: l) = last_empty l.
+Proof.
+  intros H. unfold last_empty. cbn [rev].
+  destruct (rev l) as [|y r] eqn:E.
+  - apply (f_equal (@rev _)) in E. rewrite rev_involutive in E. contradiction.
+  - reflexivity.
+Qed.
+
+Lemma spec_tlvs_step fuel (a : octets) :
+  a <> [] ->
+  spec_tlvs_fuel (S fuel) a =
+  if (length a <? 4)%nat then None
+  else if Z.odd (uint_be a 2 2) then None
+  else if (length a <? 4 + Z.to_nat (uint_be a 2 2))%nat then None
+  else match spec_tlvs_fuel fuel (skipn (4 + Z.to_nat (uint_be a 2 2)) a) with
+       | Some r => Some ((uint_be a 0 2, sub a 4 (Z.to_nat (uint_be a 2 2))) :: r)
+       | None => None
+       end.
+Proof. destruct a; [contradiction|]. reflexivity. Qed.
+
+Lemma scan_spec : forall fuel buf total,
+  bok buf -> (length buf <= fuel)%nat ->
+  match tlvset_scan fuel buf total with
+  | ROk _ =>
+      exists l, spec_tlvs_fuel fuel buf = Some l /\ last_empty l = false /\
+                tlv_list (tlvset_iter fuel buf) = l
+  | RErr e =>
+      spec_tlvs_fuel fuel buf = None \/
+      exists l, spec_tlvs_fuel fuel buf = Some l /\ last_empty l = true /\ e = EBufferTooShort
+  end.
+Proof.
+  induction fuel; intros buf total Hb Hf.
+  - destruct buf; [|cbn [length] in Hf; lia]. cbn. exists []. auto.
+  - destruct buf as [|x0 buf0].
+    { cbn. exists []. auto. }
+    set (buf := x0 :: buf0) in *.
+    assert (Hne : buf <> []) by discriminate.
+    cbn [tlvset_scan tlvset_iter]. rewrite spec_tlvs_step by assumption.
+    unfold blen.
+    destruct (Z.ltb_spec 4 (Z.of_nat (length buf))) as [H4|H4].
+    + (* more than four octets: a TLV header is parsed *)
+      destruct (Nat.ltb_spec (length buf) 4); [lia|].
+      rewrite (uint_be_slice buf 2 2) by lia. rewrite (uint_be_slice buf 2 0) by lia.
+      set (LF := be_decode (slice 2 2 buf)).
+      assert (HLF : 0 <= LF < 65536).
+      { pose proof (slice_bound 2 2 buf Hb) as B. rewrite P2 in B. exact B. }
+      rewrite (Zmod_odd LF).
+      destruct (Z.odd LF); [left; reflexivity|]. cbn [Z.eqb].
+      change (0 =? 1) with false. cbv iota.
+      destruct (Z.ltb_spec (Z.of_nat (length buf)) (4 + LF)) as [Hs|Hs].
+      * destruct (Nat.ltb_spec (length buf) (4 + Z.to_nat LF)); [|lia]. left; reflexivity.
+      * destruct (Nat.ltb_spec (length buf) (4 + Z.to_nat LF)); [lia|].
+        destruct (Z.leb_spec (Z.of_nat (length buf)) 4); [lia|].
+        set (rest := skipn (4 + Z.to_nat LF) buf).
+        assert (Hr : (length rest <= fuel)%nat).
+        { unfold rest. rewrite skipn_length. cbn [length] in Hf. unfold buf in *. cbn [length] in *. lia. }
+        specialize (IHfuel rest (total + 4 + Z.to_nat LF)%nat (bok_skipn _ _ Hb) Hr).
+        destruct (tlvset_scan fuel rest (total + 4 + Z.to_nat LF)) as [n|e].
+        -- destruct IHfuel as (l & Hl & Hle & Hit). rewrite Hl.
+           eexists. split; [reflexivity|]. split.
+           ++ destruct l as [|y l].
+              ** apply spec_tlvs_nil in Hl. unfold last_empty. cbn [rev app].
+                 assert (Hlen : (length rest = 0)%nat) by (rewrite Hl; reflexivity).
+                 unfold rest in Hlen. rewrite skipn_length in Hlen.
+                 destruct (Z.to_nat LF) as [|k] eqn:Ek; [lia|].
+                 rewrite sub_cons. reflexivity.
+              ** rewrite last_empty_cons by discriminate. exact Hle.
+           ++ unfold tlv_list in *. cbn [map tlv_type tlv_value]. rewrite Hit.
+              unfold canon_tlv_type. rewrite sub_slice by lia. reflexivity.
+        -- destruct IHfuel as [Hn|(l & Hl & Hle & He)].
+           ++ left. rewrite Hn. reflexivity.
+           ++ right. rewrite Hl. eexists. split; [reflexivity|]. split; [|exact He].
+              rewrite last_empty_cons; [exact Hle|]. intros ->. discriminate.
+    + (* at most four octets left *)
+      destruct (Nat.eqb_spec (length buf) 0); [unfold buf in *; discriminate|].
+      destruct (Nat.ltb_spec (length buf) 4) as [H3|H3]; [left; reflexivity|].
+      assert (Hl4 : length buf = 4%nat) by lia.
+      rewrite (uint_be_slice buf 2 2) by lia. rewrite (uint_be_slice buf 2 0) by lia.
+      set (LF := be_decode (slice 2 2 buf)).
+      assert (HLF : 0 <= LF < 65536).
+      { pose proof (slice_bound 2 2 buf Hb) as B. rewrite P2 in B. exact B. }
+      destruct (Z.odd LF); [left; reflexivity|].
+      destruct (Nat.ltb_spec (length buf) (4 + Z.to_nat LF)); [left; reflexivity|].
+      assert (HLF0 : Z.to_nat LF = 0%nat) by lia. rewrite HLF0.
+      assert (Hrest : skipn (4 + 0) buf = []).
+      { apply length_zero_iff_nil. rewrite skipn_length. lia. }
+      rewrite Hrest. right.
+      replace (spec_tlvs_fuel fuel []) with (Some (@nil (Z * octets))) by (destruct fuel; reflexivity).
+      eexists. split; [reflexivity|]. split; reflexivity.
+Qed.
+
+(** the message types and body lengths of WireSpec are those of the model *)
+Lemma body_len_table v :
+  0 <= v < 16 ->
+  match msg_type_of_nibble v, spec_body_len v with
+  | None, None => True
+  | Some t, Some bl => bl = Z.to_nat (type_body_size t)
+  | _, _ => False
+  end.
+Proof.
+  intros Hv.
+  pose (p := fun v => match msg_type_of_nibble v, spec_body_len v with
+                      | None, None => true
+                      | Some t, Some bl => Nat.eqb bl (Z.to_nat (type_body_size t))
+                      | _, _ => false end).
+  assert (H : forallb p (zrange 16) = true) by (vm_compute; reflexivity).
+  pose proof (zrange_all 16 p H v Hv) as Hp. unfold p in Hp.
+  destruct (msg_type_of_nibble v), (spec_body_len v); try discriminate; auto.
+  apply Nat.eqb_eq. exact Hp.
+Qed.
+
+Lemma tlv_area_eq b bl :
+  (34 + bl <= Z.to_nat (mlen b))%nat -> (Z.to_nat (mlen b) <= length b)%nat ->
+  sub b (34 + bl) (Z.to_nat (mlen b) - (34 + bl)) = skipn bl (content_of b).
+Proof.
+  intros H1 H2. unfold content_of. rewrite skipn_slice. rewrite sub_slice by lia. f_equal. lia.
+Qed.
+
+(** Soundness and completeness of the decoder with respect to the frame
+    format of WireSpec, and what exactly F5 rejects. *)
+Lemma decode_vs_spec b :
+  bok b ->
+  match decode b with
+  | ROk m =>
+      spec_wellformed b = true /\ last_tlv_empty b = false /\
+      spec_tlv_area b = m_suffix m /\ spec_tlv_summary b = Some (tlv_summary (m_suffix m))
+  | RErr e =>
+      spec_wellformed b = false \/
+      (spec_wellformed b = true /\ last_tlv_empty b = true /\ e = EBufferTooShort)
+  end.
+Proof.
+  intros Hb. rewrite decode_eq.
+  unfold spec_wellformed, last_tlv_empty, spec_tlv_summary, spec_tlv_area.
+  unfold blen.
+  destruct (Z.ltb_spec (Z.of_nat (length b)) 34) as [H34|H34].
+  { destruct (Nat.leb_spec 34 (length b)); [lia|]. left; reflexivity. }
+  destruct (Nat.leb_spec 34 (length b)); [|lia].
+  assert (Hnib : 0 <= byte_at 0 b mod 16 < 16) by (apply Z.mod_pos_bound; lia).
+  pose proof (body_len_table _ Hnib) as Htab.
+  unfold spec_msg_type, oct. fold (byte_at 0 b).
+  destruct (msg_type_of_nibble (byte_at 0 b mod 16)) as [t|];
+    destruct (spec_body_len (byte_at 0 b mod 16)) as [bl|]; try contradiction;
+    [|left; reflexivity].
+  subst bl. rewrite (uint_be_slice b 2 2) by lia. fold (mlen b).
+  pose proof (mlen_bound b Hb) as HLb.
+  assert (Hbs : 0 <= type_body_size t <= 30) by (destruct t; cbn; lia).
+  destruct (Z.ltb_spec (mlen b) 34).
+  { destruct (Nat.leb_spec (34 + Z.to_nat (type_body_size t)) (Z.to_nat (mlen b))); [lia|]. left; reflexivity. }
+  destruct (Z.ltb_spec (Z.of_nat (length b)) (mlen b)).
+  { destruct (Nat.leb_spec (34 + Z.to_nat (type_body_size t)) (Z.to_nat (mlen b))); [|left; reflexivity].
+    destruct (Nat.leb_spec (Z.to_nat (mlen b)) (length b)); [lia|]. left; reflexivity. }
+  pose proof (content_length b ltac:(unfold blen; lia)) as Hcl. unfold blen in Hcl. rewrite Hcl.
+  destruct (Z.ltb_spec (mlen b - 34) (type_body_size t)).
+  { destruct (Nat.leb_spec (34 + Z.to_nat (type_body_size t)) (Z.to_nat (mlen b))); [lia|]. left; reflexivity. }
+  destruct (Nat.leb_spec (34 + Z.to_nat (type_body_size t)) (Z.to_nat (mlen b))); [|lia].
+  destruct (Nat.leb_spec (Z.to_nat (mlen b)) (length b)); [|lia].
+  rewrite tlv_area_eq by lia.
+  set (tb := skipn (Z.to_nat (type_body_size t)) (content_of b)).
+  assert (Htb : bok tb) by (apply bok_skipn, bok_slice, Hb).
+  unfold decode_tlvset, spec_tlvs.
+  pose proof (scan_spec (length tb) tb 0%nat Htb (le_n _)) as Hsc.
+  destruct (tlvset_scan (length tb) tb 0) as [n|e] eqn:Escan; cbn [rbind].
+  - destruct Hsc as (l & Hl & Hle & Hit). rewrite Hl.
+    apply tlvset_scan_total in Escan. subst n. cbn [Nat.add]. rewrite firstn_all.
+    cbn [m_suffix]. fold (last_empty l). repeat split; auto.
+    unfold tlv_summary, tlvs_of. rewrite <- Hit. unfold tlv_list. rewrite map_map. reflexivity.
+  - destruct Hsc as [Hn|(l & Hl & Hle & He)].
+    + left. rewrite Hn. reflexivity.
+    + right. rewrite Hl. fold (last_empty l). auto.
 Qed.
